@@ -27,7 +27,7 @@ by=[]
 for l in open(log,errors='replace'):
     mm=re.match(r'(\w+): paths=.* viol=\[([^\]]+)\] known=',l)
     if mm:
-        names=sorted(set(n for n,k in re.findall(r'((?:assert|panic|nonterm|deadlock|oblige)[^| ]*)\|(\S*)',mm.group(2)) if not k))
+        names=sorted(set(n for n,k in re.findall(r'((?:assert|panic|nonterm|deadlock|oblige)[^|]*)\|(\S*) x\d+',mm.group(2)) if not k))
         if names: by.append(mm.group(1)+": "+", ".join(names[:4]))
 m.setdefault("caught_by",{})[tier]=by
 json.dump(m,open(p,'w'),indent=1)
